@@ -237,34 +237,24 @@ Section Cleanup.
   Qed.
 End Cleanup.
 
-(* in terms of the interpreter: the object-store cluster with a one-shot fault plan that is
-   not a DELETE fault (a DELETE fault could only hit the clean-up itself: a second failure) *)
+(* in terms of the interpreter ([run_tr] = Seq.run that also returns the trace of (effect,
+   answer) pairs; [fst (run_tr ...) = run ...] is HooksProofsTrace.run_tr_run): the
+   object-store cluster with a one-shot fault plan that is not a DELETE fault (a DELETE fault
+   could only hit the clean-up itself: a second failure) *)
 Theorem cleanup_on_fail :
-  forall rn ns fl cid vid mani hks cf w w' out t,
+  forall rn ns fl cid vid mani hks cf l0 objs0 s' out tr,
     f_atomic fl = false -> f_cleanup fl = true -> f_dry_run fl = false ->
     (forall key, cf_k cf <> Some (VDelete, key)) ->
-    run_store_op rn ns (mkOp (OpUpgrade fl cid vid mani hks) nofault cf) w = (w', out, t) ->
-    exists tr, exec (upgrade rn ns fl cid vid mani hks) tr out /\
-      (has_failure tr = true ->
-       forall cur tgt ok created, In (ER (KUpdate cur tgt) (ok, created)) tr ->
-         forall r, In r created -> amem (rkey r) (w_objs w') = false).
+    run_tr kstate (kube_handle rn ns) dead_resp nofault (upgrade rn ns fl cid vid mani hks)
+           (mkR l0 (mkK objs0 (cf_k cf) (cf_h cf) (cf_wait cf)) 0 0 false []) = (s', out, tr) ->
+    has_failure tr = true ->
+    forall cur tgt ok created, In (ER (KUpdate cur tgt) (ok, created)) tr ->
+      forall r, In r created -> amem (rkey r) (objs (ks s')) = false.
 Proof.
-  intros rn ns fl cid vid mani hks cf w w' out t Hat Hcl Hdry Hnd H.
-  unfold run_store_op in H. cbn [oc_op oc_sf oc_cf] in H.
-  set (k0 := mkK (w_objs w) (cf_k cf) (cf_h cf) (cf_wait cf)) in *.
-  destruct (run_op kstate (kube_handle rn ns) dead_resp rn ns (OpUpgrade fl cid vid mani hks) nofault (w_led w) k0)
-    as [[[l k] o] t'] eqn:E.
-  inversion H; subst. clear H.
-  unfold run_op in E. cbn [op_prog] in E.
-  destruct (run kstate (kube_handle rn ns) dead_resp nofault (upgrade rn ns fl cid vid mani hks)
-                (mkR (w_led w) k0 0 0 false [])) as [s o'] eqn:E2.
-  assert (Hd : dead s = false).
-  { eapply (run_lrun dead_resp kstate (kube_handle rn ns)); [|exact E2]. reflexivity. }
-  apply run_krun in E2; [|reflexivity]. destruct E2 as [tr Hk]. cbn [ks] in Hk.
-  rewrite Hd in E. inversion E; subst. clear E. cbn [w_objs].
-  exists tr. split; [eapply krun_exec; eauto|].
-  intros Hf. eapply cleanup_on_fail_krun; eauto.
-  unfold nodel, k0. cbn [kfault]. destruct (cf_k cf) as [[v key]|] eqn:Ek; auto. destruct v; auto.
+  intros rn ns fl cid vid mani hks cf l0 objs0 s' out tr Hat Hcl Hdry Hnd H Hf.
+  apply run_tr_krun in H; [|reflexivity]. destruct H as [Hk _]. cbn [ks] in Hk.
+  eapply cleanup_on_fail_krun; eauto.
+  unfold nodel. cbn [kfault]. destruct (cf_k cf) as [[v key]|] eqn:Ek; auto. destruct v; auto.
   exfalso. now apply (Hnd key).
 Qed.
 
